@@ -291,6 +291,16 @@ pub fn run(seed: u64, count: usize, first_no: usize, out: &mut Vec<Value>) -> us
         let p = Profile { metrics: &crate::gen::SINGLE_METRIC[mi], multi_index: 0.7, p_commit: 0.6, p_abort: 0.05, p_search: 0.0, ..profile("forest") };
         let mut h = gen_history(rng.gen(), &p);
         h.ops.push(Op::Commit);
+        // now and then an index that holds items and marks but was never built (no metadata: it must get no version record)
+        if rng.gen_bool(0.5) {
+            let used: Vec<u16> = h.indexes.iter().map(|d| d.idx).collect();
+            if let Some(idx) = [5u16, 40000, 65535, 2].iter().copied().find(|i| !used.contains(i)) {
+                let dim = h.indexes[0].dim;
+                h.indexes.push(crate::hist::IndexDecl { idx, metric: m, dim });
+                h.ops.push(Op::Add { idx, id: 4, v: crate::gen::gen_vector(&mut rng, dim, &p, false) });
+                h.ops.push(Op::Commit);
+            }
+        }
         let dims: BTreeMap<u16, usize> = h.indexes.iter().map(|d| (d.idx, d.dim)).collect();
         let (_d0, env0, db0) = fresh(h.map_size);
         let (orig, _) = materialise(&h, &env0, db0);
